@@ -47,5 +47,12 @@ RULE = ("trees with .DS_Store files, pattern sets from base names, globs and dir
         "lines) over 1-5 generations, flat and nested, -sf runs, edits of ignored and non-ignored files, verify / diff / verify -dh with extra patterns; oracle: "
         "pattern list = previous list as prefix + new ones without duplicates (+ parent's in nested histories), nothing matched is recorded or reported. "
         "Non-trivial: at least one non-default pattern was given.")
-check, replay = make("C12", oracles.oracle_c12, scenario, 60, 1500, RULE, corpus_defects=[defects.d08_c12_sf_folder_ignores_patterns],
+# recorded inputs that run first: `create -sf <folder>` under patterns bound to a location (a pattern with a slash is matched
+# against the path from the history root, also when only a sub-folder is walked), given now and inherited from an earlier run
+CORPUS = [{"tree": {"A": {"d": {"cache": {"d": {"c.bin": {"f": "01"}}}, "secret.txt": {"f": "02"}, "keep.bin": {"f": "03"}, "B": {"d": {"secret.txt": {"f": "04"}}}}},
+                    "other.bin": {"f": "05"}},
+           "steps": [{"op": "create", "fmts": ["md5"], "sf": ["A"], "i": ["A/cache/", "A/secret.txt"]}, {"op": "verify"},
+                     {"op": "add", "path": "A/cache/d.bin", "data": "06"}, {"op": "create", "fmts": ["md5"], "sf": ["A"]},
+                     {"op": "create", "fmts": ["md5"], "sf": ["A/B", "A/cache"], "ii": ["A/B/secret.txt", ""]}, {"op": "create", "fmts": ["md5"]}, {"op": "verify"}]}]
+check, replay = make("C12", oracles.oracle_c12, scenario, 60, 1500, RULE, corpus_defects=[defects.d08_c12_sf_folder_ignores_patterns], corpus=CORPUS,
                      nontrivial=lambda scn, obs: any(s.get("i") or s.get("ii") for s in scn["steps"]))
